@@ -51,9 +51,10 @@ VARIABLES
   phase,    \* "ready" | "await" | "done" | "error"
   last,     \* observation: the request just sent [url, host, auth, cookie, referer, copy]
   nsent,    \* observation: number of requests sent
-  copyflag  \* the request object in nxt was made by copying the original (307/308)
+  copyflag, \* the request object in nxt was made by copying the original (307/308)
+  ar        \* WebSession._authentication_retried: the one retry with credentials has been used
 
-vars == <<orig, nxt, alias, n, loop, hwa, jar, phase, last, nsent, copyflag>>
+vars == <<orig, nxt, alias, n, loop, hwa, jar, phase, last, nsent, copyflag, ar>>
 
 -----------------------------------------------------------------------------
 \* cookies of the jar that http.cookiejar would put on a request for u
@@ -79,7 +80,7 @@ InitWith(u, ref, login, jar0) ==
   /\ jar = jar0
   /\ orig = WithCookies(FirstRequest(u, ref, login), jar0) /\ nxt = orig /\ alias = TRUE
   /\ n = 0 /\ loop = "normal" /\ hwa = {} /\ phase = "ready"
-  /\ last = NoReq /\ nsent = 0 /\ copyflag = FALSE
+  /\ last = NoReq /\ nsent = 0 /\ copyflag = FALSE /\ ar = FALSE
 
 Init == \E u \in URLs, ref \in {"none", "http", "https"}, login \in BOOLEAN, jar0 \in SUBSET {<<h, FALSE>> : h \in Hosts} :
           InitWith(u, ref, login, jar0)
@@ -95,7 +96,7 @@ Start ==
        /\ last' = [url |-> r2.url, host |-> r2.host, auth |-> r2.auth, cookie |-> r2.cookie,
                    referer |-> r2.referer, copy |-> copyflag]
   /\ nsent' = nsent + 1 /\ phase' = "await"
-  /\ UNCHANGED <<alias, n, loop, hwa, jar, copyflag>>
+  /\ UNCHANGED <<alias, n, loop, hwa, jar, copyflag, ar>>
 
 \* the copy of the original request made for a 307 / 308
 Copy(u) ==
@@ -115,18 +116,19 @@ Respond(status, kind, loc, setcookie) ==
      /\ n' = n1
      /\ IF isred
         THEN IF n1 > MaxRed \/ kind \in {"missing", "bad"}
-             THEN /\ phase' = "error" /\ UNCHANGED <<orig, nxt, alias, loop, hwa, jar, copyflag>>
+             THEN /\ phase' = "error" /\ UNCHANGED <<orig, nxt, alias, loop, hwa, jar, copyflag, ar>>
              ELSE /\ nxt' = WithCookies(Prepared(IF status \in {307, 308} THEN Copy(loc) ELSE Fresh(loc)), jar1)
                   /\ copyflag' = (status \in {307, 308})
                   /\ alias' = FALSE /\ loop' = "redirect" /\ phase' = "ready" /\ jar' = jar1
-                  /\ UNCHANGED <<orig, hwa>>
-        ELSE IF status = 401 /\ nxt.login /\ loop # "auth"
-        THEN /\ nxt' = WithCookies(WithAuth(nxt), jar1)
+                  /\ UNCHANGED <<orig, hwa, ar>>
+        \* one retry with the credentials per session, and never for a request that already carried them
+        ELSE IF status = 401 /\ nxt.login /\ loop # "auth" /\ ~ar /\ nxt.auth = "none"
+        THEN /\ nxt' = WithCookies(WithAuth(nxt), jar1) /\ ar' = TRUE
              /\ orig' = IF alias THEN nxt' ELSE orig
              /\ loop' = "auth" /\ hwa' = hwa \cup {Authority(nxt.url)} /\ phase' = "ready" /\ jar' = jar1
              /\ UNCHANGED <<alias, copyflag>>
         ELSE /\ nxt' = NoReq /\ loop' = "normal" /\ phase' = "done" /\ jar' = jar1
-             /\ UNCHANGED <<orig, alias, hwa, copyflag>>
+             /\ UNCHANGED <<orig, alias, hwa, copyflag, ar>>
   /\ last' = NoReq       \* the observation has been consumed (it is checked in the state right after Start)
   /\ UNCHANGED nsent
 
